@@ -17,6 +17,20 @@ Invoked by tools/vcheck.py like a harness engine:  cli_engine.py cli --out DIR -
 """
 import json, os, random, shutil, subprocess, sys
 
+def _find_zstd():
+    """the reference `zstd` command line tool: on PATH, or in the places this sandbox is known to keep it"""
+    import shutil as _sh
+    p = _sh.which("zstd")
+    if p:
+        return p
+    for c in ("/root/miniconda/bin/zstd", "/usr/bin/zstd", "/usr/local/bin/zstd", "/opt/conda/bin/zstd", "/venv/bin/zstd"):
+        if os.path.exists(c):
+            return c
+    return "zstd"
+
+
+ZSTD = _find_zstd()
+
 VERIF = os.path.dirname(os.path.dirname(os.path.abspath(__file__)))
 BUILD = os.path.join(VERIF, "build")
 REPO = os.environ.get("VERIF_REPO", os.path.realpath(os.path.join(VERIF, "repo")))
@@ -94,7 +108,7 @@ class Engine:
         return d
 
     def zstd_restores(self, path, original):
-        p = subprocess.run(["zstd", "-d", "-q", "-c", path], stdout=subprocess.PIPE, stderr=subprocess.PIPE)
+        p = subprocess.run([ZSTD, "-d", "-q", "-c", path], stdout=subprocess.PIPE, stderr=subprocess.PIPE)
         return p.returncode == 0 and p.stdout == original
 
     # ------------------------------------------------------------------ compress (+ round trip)
@@ -185,7 +199,7 @@ class Engine:
         data = content(rnd, 5000, 2)
         with open(os.path.join(d, "plain"), "wb") as f:
             f.write(data)
-        subprocess.run(["zstd", "-q", "-f", os.path.join(d, "plain"), "-o", good], check=True)
+        subprocess.run([ZSTD, "-q", "-f", os.path.join(d, "plain"), "-o", good], check=True)
         frame = open(good, "rb").read()
         os.remove(os.path.join(d, "plain"))
         exists, valid, same, creatable = 1, 1, 0, 1
@@ -323,7 +337,7 @@ class Engine:
                 d = self.fresh()
                 plain = os.path.join(d, "plain")
                 open(plain, "wb").write(data)
-                subprocess.run(["zstd", "-q", "-f", plain, "-o", os.path.join(d, "arch.zst")], check=True)
+                subprocess.run([ZSTD, "-q", "-f", plain, "-o", os.path.join(d, "arch.zst")], check=True)
                 os.remove(plain)
                 os.makedirs(os.path.join(d, "sub"))
                 os.symlink(".", os.path.join(d, "here"))
